@@ -117,6 +117,10 @@ Definition sends_of (cfg : config) (es : list effect) : list sgmsg :=
 Definition blocks_of (es : list effect) : list (Z * Z) :=
   flat_map (fun e => match e with EQueueBlock n h => [(n, h)] | _ => [] end) es.
 
+(* what the harness engine of node [cme] proposes for block n: it depends on the proposer, so that
+   a fresh proposal for a number differs from an earlier proposal of another leader for it *)
+Definition propose_payload (cfg : config) (n : Z) : Z := 100 + n mod 20 + 20 * (cme cfg mod 16).
+
 (* proposer.rs: run_proposer / create_proposal with the harness engine's propose_payload *)
 Definition propose (cfg : config) (s : rstate) (es : list effect) : list sgmsg :=
   match last_notify es with
@@ -129,7 +133,7 @@ Definition propose (cfg : config) (s : rstate) (es : list effect) : list sgmsg :
             | Ok (n, Some _) => [mk_msg (cme cfg) (MProposal None j)]
             | Ok (n, None) =>
                 if (0 <? n) && negb (n - 1 <? r_store_next s) then []
-                else [mk_msg (cme cfg) (MProposal (Some (100 + n mod 100)) j)]
+                else [mk_msg (cme cfg) (MProposal (Some (propose_payload cfg n)) j)]
             | _ => []
             end
           else []
